@@ -6,6 +6,35 @@ from plan import PLAN
 props = [json.loads(l) for l in open("/verif/properties.jsonl")]
 hooks = subprocess.run(["git", "-C", "/repo", "log", "--format=%H %s"], capture_output=True, text=True).stdout.splitlines()
 hook_commits = [l.split()[0] for l in hooks if l.split(" ", 1)[1].startswith("verif hooks")]
+DESC = {
+    "lockstep": "scripted histories on the real cache (virtual clock, manually fed ticks, quiescence after every step) with the observation trace checked offline against an executable reference model",
+    "hostile": "concurrent hostile workloads (2-16 client threads, few keys, seeded delays at yield points) with a per-call event log checked offline (history checkers, invariants at the quiescent end)",
+    "gated": "directed interleavings: one thread parked at a named yield point of the real code while a racing operation runs, judged by the same offline checkers",
+    "policy": "the policy's observer log (sampled candidates, victims, charges) replayed against the admission / eviction rule",
+    "sketch": "component oracle: randomized record / reset / clear sequences on the real estimator against exact counts",
+    "bloom": "component oracle: membership and false-positive rates of the real doorkeeper over structured and random hash sets",
+    "keys": "component oracle: (index, conflict) pairs of the real key builders over exhaustive and sampled key domains",
+    "differential": "Cache and AsyncCache run on the same histories, traces compared observation by observation",
+    "close": "lifecycle scenarios around close() incl. directed ones, with state-based hang / livelock diagnosis and worker-exit guards",
+    "waitrace": "wait() racing close / clear, with state-based hang diagnosis",
+    "grid": "configuration grid with a workload per configuration, panic monitor, hang / livelock diagnosis",
+    "types": "value-type scenarios comparing charges and callback costs with the Coster / explicit costs",
+    "miri": "Miri (undefined behaviour, data races) on small scenarios of the hooks-enabled crate [thorough tier]",
+}
+
+
+def technique(pl):
+    out = []
+    for st in pl["stages"]:
+        if st.get("sanitizer"):
+            t = {"tsan": "ThreadSanitizer", "asan": "AddressSanitizer"}[st["sanitizer"]] + f" build of the {st['engine']} workload [thorough tier]"
+        else:
+            t = f"{st['engine']}: {DESC.get(st['engine'], st['engine'])}"
+        if t not in out:
+            out.append(t)
+    return "runtime monitoring of the real code through cfg-gated hooks - " + "; ".join(out)
+
+
 checks, na = [], []
 for p in props:
     pid = p["id"]
@@ -20,7 +49,7 @@ for p in props:
             engine=",".join(s["engine"] for s in pl["stages"]),
             level_claimed=dict(category="exploration", text=pl.get("level_text", "held on the executions explored: real code run under generated workloads with a deterministic oracle over recorded events; not a proof"), design_ref=pl.get("design_ref", f"DESIGN.md section 6 ({pid})")),
             level_note="; ".join(pl.get("assumptions", [])) or "hooks record faithfully; oracle as stated in DESIGN.md",
-            technique=pl.get("technique", "runtime monitoring: " + ", ".join(s["engine"] for s in pl["stages"])),
+            technique=pl.get("technique", technique(pl)),
         ))
     else:
         na.append(dict(property_id=pid, reason=(PLAN.get(pid, {}).get("disabled") or "check not built yet in this phase (planned: see DESIGN.md section 6)")))
